@@ -6,6 +6,9 @@ import time
 import sys
 import traceback
 
+# replay on the tree the VCs came from (a scratch copy under --src-root keeps the compiled modules)
+if os.environ.get("VERIF_SRC"):
+    sys.path.insert(0, os.path.dirname(os.environ["VERIF_SRC"].rstrip("/")))
 from biotite.application.application import Application, AppState, AppStateError
 from biotite.application.localapp import LocalApp
 
@@ -185,6 +188,20 @@ def replay_localapp(rec, m):
                     pass
             return bad, (f"join() called in state {s0.name}: {out}; state {before[0].name} -> {app._state.name}, "
                          f"clean_up calls {before[1]} -> {app.cleanups} (AppStateError and no side effect expected: {not allowed})")
+        if "library_requires[Popen.wait" in ob:
+            # a child that writes 256 KiB to each pipe and then ends at once: join() must return its output
+            app = LProbe(os.path.join(fix, "noisy"))
+            app.start()
+            t0 = time.time()
+            try:
+                app.join(timeout=8)
+                out = "returned"
+            except Exception as e:
+                out = type(e).__name__
+            took = time.time() - t0
+            bad = out != "returned" or app._state != AppState.JOINED or len(app.seen_stdout) != 262144
+            return bad, (f"child that writes 256 KiB to STDOUT and STDERR and exits at once: join(timeout=8) {out} after {took:.1f} s, "
+                         f"state={app._state.name} (the pipes are not drained while waiting)")
         if ("LocalApp.join" in ob and "TimeoutError" in ob) or "LocalApp.cancel" in ob or "Application.cancel" in ob \
                 or "kill_iff_cancelled" in ob:
             import subprocess as sp
